@@ -471,16 +471,4 @@ theorem filter_refines (ext : Ext) (ltx : GoLContext) (B A M : Nat) (hB : ltx.Be
             rlen := by simp [ginit]
             mpos := fun h => Or.inl (by show 1 ≤ M; omega) }
 
-/-- the recorded C10 finding on the translated code: a `before` context beyond what `make(chan, n)` accepts makes the filter
-    panic before it reads a line -/
-theorem filter_huge_before_panics (ext : Ext) (ltx : GoLContext) (hB : ltx.BeforeContext > 35184372088820) (f : readFile)
-    (raws : List GoString) (re : GoRegex) :
-    readFile.filterWithLContext ext f () ltx raws () re = Outcome.panic "index out of range" := by
-  unfold readFile.filterWithLContext
-  simp only []
-  have h1 : decide (ltx.BeforeContext > 0) = true := by simp only [decide_eq_true_eq]; omega
-  have h2 : ¬ goMakeChanOk ltx.BeforeContext = true := by
-    simp only [goMakeChanOk, decide_eq_true_eq]; omega
-  rw [if_pos h1, if_neg h2]
-
 end Dtail.GenGrep
